@@ -1161,6 +1161,8 @@ where
         let tti = &self.time_to_idle;
         let va = &self.valid_after();
         for _ in 0..batch_size {
+            #[cfg(mini_moka_verif)]
+            crate::verif::sp("exp_ao.iter");
             // Peek the front node of the deque and check if it is expired.
             let key = deq.peek_front().and_then(|node| {
                 // TODO: Skip the entry if it is dirty. See `evict_lru_entries` method as an example.
@@ -1234,6 +1236,8 @@ where
         let ttl = &self.time_to_live;
         let va = &self.valid_after();
         for _ in 0..batch_size {
+            #[cfg(mini_moka_verif)]
+            crate::verif::sp("exp_wo.iter");
             let key = deqs.write_order.peek_front().and_then(|node| {
                 // TODO: Skip the entry if it is dirty. See `evict_lru_entries` method as an example.
                 if is_expired_entry_wo(ttl, va, node, now) {
@@ -1290,6 +1294,8 @@ where
             if evicted >= weights_to_evict {
                 break;
             }
+            #[cfg(mini_moka_verif)]
+            crate::verif::sp("evict.iter");
 
             let maybe_key_and_ts = deq.peek_front().map(|node| {
                 let entry_info = node.element.entry_info();
